@@ -1,0 +1,31 @@
+//go:build verif
+
+package meta
+
+import (
+	"io"
+
+	"github.com/hashicorp/raft"
+)
+
+// Thin exported wrappers for the external verification harness of property C07
+// (snapshot persistence into a caller-supplied raft.SnapshotSink). No behaviour of their own.
+
+// VerifSnapshotSink is raft.SnapshotSink.
+type VerifSnapshotSink = raft.SnapshotSink
+
+// PersistTo calls storeFSMSnapshot.Persist on the given sink.
+func (s *VerifSnap) PersistTo(sink raft.SnapshotSink) error { return s.snap.Persist(sink) }
+
+// Release calls storeFSMSnapshot.Release.
+func (s *VerifSnap) Release() { s.snap.Release() }
+
+// VerifNewFileSnapshotStore opens the snapshot store the way raftState.open does.
+func VerifNewFileSnapshotStore(dir string) (*raft.FileSnapshotStore, error) {
+	return raft.NewFileSnapshotStore(dir, raftSnapshotsRetained, io.Discard)
+}
+
+// VerifCreateSink calls FileSnapshotStore.Create (current snapshot version, empty configuration).
+func VerifCreateSink(s *raft.FileSnapshotStore, index, term uint64) (raft.SnapshotSink, error) {
+	return s.Create(raft.SnapshotVersionMax, index, term, raft.Configuration{}, 0, nil)
+}
